@@ -2,6 +2,7 @@ import Driver.C10
 import Driver.ST
 import Driver.C14
 import Driver.C13
+import Driver.C02
 
 def main (args : List String) : IO UInt32 := do
   match args with
@@ -9,4 +10,5 @@ def main (args : List String) : IO UInt32 := do
   | "ST" :: rest => DriverST.main rest; return 0
   | "C14" :: rest => DriverC14.main rest; return 0
   | "C13" :: rest => DriverC13.main rest; return 0
+  | "C02" :: rest => DriverC02.main rest; return 0
   | _ => IO.eprintln "usage: gvdriver <Cxx> [mode] < history"; return 2
